@@ -630,7 +630,8 @@ def gen_swarm(rng, mode, tier="quick"):
          "mpe": rng.choice([2, 3, 4]), "set_params": rng.choice([0.5, 1, 2]), "preproc": rng.choice([0, 0.5, 1.5]),
          "save": rng.choice([0, 0.5, 1]), "load_check": rng.choice([0, 0.5, 1]), "restart": rng.choice([0, 0.5, 1]),
          "save_crash": rng.choice([0, 0.3, 0.8]), "poser": rng.choice([0.5, 1, 2]) if mode != "preger" else 0,
-         "bare_gate": rng.choice([0, 0.3]), "new_record": rng.choice([0, 0, 0.4, 1.0]) if mode != "poser" else 0}
+         "bare_gate": rng.choice([0, 0.3]), "new_record": rng.choice([0, 0, 0.4, 1.0]) if mode != "poser" else 0,
+         "recreate": rng.choice([0, 0.5, 1.0]) if mode != "poser" else 0}
     r = rng.random()
     nops = rng.randint(3, 5) if r < 0.3 else rng.randint(5, 8) if r < 0.75 else rng.randint(8, 12)
     if tier == "thorough" and rng.random() < 0.25:
@@ -760,6 +761,15 @@ def gen_op(rng, wd: World, swarm, step, script):
             if nset < 1 or w["mode"] == "preger":
                 continue
             return _poser_op(rng, wd)
+        if k == "recreate":
+            free = [i for i, st_ in enumerate(wd.st) if st_.added_to is None and w["algs"][i].get("name") != "spare"]
+            if not free or not any(st_.ran for st_ in wd.st):
+                continue
+            i = rng.choice(free)
+            home = w["algs"][i]["home"]
+            script.append(lambda r, wd2, i=i, home=home: {"op": "add", "setup": home, "algs": [i]})
+            script.append(lambda r, wd2, i=i, home=home: {"op": "run", "setup": home, "name": w["algs"][i]["name"]})
+            return {"op": "recreate", "alg": i}
         if k == "bare_gate":
             names = MULTI if w["mode"] == "preger" else SINGLE
             return {"op": "bare_gate", "cls": rng.choice(names), "missing": rng.choice(["data", "fs", "both", "params"])}
@@ -984,6 +994,8 @@ def _poser_op(rng, wd):
         idx = [rng.randrange(nset) for _ in range(k)] if rng.random() < 0.15 else rng.sample(range(nset), min(k, nset))
     n0 = len(wd.members(idx[0])) if idx else 1
     ln = n0 if rng.random() < 0.75 else max(0, n0 + rng.choice([-1, 1, 2]))
+    if rng.random() < 0.08:
+        ln = 0  # an explicitly empty list of names
     return {"op": "poser", "setups": idx, "names": [f"g{i}" for i in range(ln)], "merge": rng.random() < 0.7}
 
 
@@ -1037,7 +1049,7 @@ def poser_script(rng, w):
         steps.append(_sp)
     steps.append(lambda r, wd: _poser_op(r, wd) if r.random() < 0.25 else
                  {"op": "poser", "setups": (list(range(ns)) if r.random() < 0.8 else r.sample(range(ns), ns)),
-                  "names": [f"g{i}" for i in range(len(wd.members(0)) + (0 if r.random() < 0.8 else 1))], "merge": True})
+                  "names": [f"g{i}" for i in range(0 if r.random() < 0.06 else len(wd.members(0)) + (0 if r.random() < 0.8 else 1))], "merge": True})
     return steps
 
 
@@ -1192,6 +1204,17 @@ def apply_op(wd: World, op, step):
         outcome = _do_poser(wd, op, step)
     elif k == "bare_gate":
         outcome = _do_bare_gate(wd, op, step)
+    elif k == "recreate":
+        # the user builds the algorithm object anew (re-executed notebook cell): same class, same arguments, constructed NOW -
+        # after whatever ran before. Only for an object that is not registered anywhere at the moment.
+        i = op["alg"]
+        if wd.st[i].added_to is None:
+            wd.algs[i] = make_alg(w["algs"][i])
+            wd.st[i] = AlgState(w["algs"][i])
+            wd.inc("probe.algorithm_object_constructed_late")
+            before = wd.snapshot()
+        else:
+            outcome = "skipped"
     else:
         raise AssertionError(k)
     if wd.stop:
